@@ -22,13 +22,13 @@ def run(ctx):
     exe = os.path.join(tdir, "c09")
     driver = os.path.join(VERIF, "ocaml", "c09", "driver")
     bound = 3 if ctx.thorough() else 2
-    maxexecs = 12000 if ctx.thorough() else 1500
+    maxexecs = 6000 if ctx.thorough() else 400
     nsh = 16
     jobs = []
     for k in KINDS:
         for i in range(nsh):
             jobs.append(("exh:%s:%d" % (k, i), [exe, "exh", k, str(bound), str(i), str(nsh), str(ctx.seed), str(maxexecs)]))
-        nr = 40000 if ctx.thorough() else 4000
+        nr = 24000 if ctx.thorough() else 1600
         for i in range(nsh):
             jobs.append(("rnd:%s:%d" % (k, i), [exe, "rnd", k, str(nr), str(i), str(nsh), str(ctx.seed)]))
     if ctx.thorough():
